@@ -5,8 +5,8 @@
   pony/orm/integration/bottle_plugin.py).  Every theorem is for ALL environments `env` (which commits fail, which
   exceptions carry `should_retry`, which are TransactionErrors), ALL option records `o` (retry count, ddl, serializable,
   `allowed_exceptions` / `retry_exceptions` as arbitrary — possibly raising — predicates) and ALL bodies, where a body is
-  an arbitrary program `Prog` (writes, raises, try/except, nested `with db_session`, nested decorated calls, wrapped
-  generators, Flask requests, to any depth).
+  an arbitrary program `Prog` (writes, raises, try/except, its own `commit()` / `rollback()` calls, nested
+  `with db_session`, nested decorated calls, wrapped generators, Flask requests, to any depth).
 
   Vocabulary (Lemmas/DbSession.lean):
     Clean s             the thread is outside every session and holds nothing uncommitted
@@ -62,17 +62,32 @@ theorem C18_bridge_glue (isResp isErr : Bool) :
     DbSessionGen.flaskExitPassesType = true ∧ DbSessionGen.isAllowedException isResp isErr = (isResp && !isErr) :=
   ⟨rfl, rfl⟩
 
-/-! ### nested sessions: only the outermost exit commits or rolls back -/
+/-! ### nested sessions: only the outermost exit commits or rolls back
 
-/-- While a session is open, NO program — whatever it nests: `with db_session(...)`, decorated calls (any `retry`),
-    wrapped generators, Flask requests, try/except — commits, rolls back, or changes the nesting counter or the
-    outermost session; it can only add pending writes.  (Unbounded nesting depth: induction over programs.) -/
-theorem C18_nested (env : Env) (p : Prog) (s : St) (hc : 0 < s.counter) (hs : s.session.isSome = true) :
+Bodies are arbitrary programs.  Since this round a program may also call the module-level `commit()` / `rollback()`
+itself (`Prog.commit`, `Prog.rollback`); `p.noManual` says it does not.  Every theorem below is stated for ALL programs:
+what the body committed itself is `b.1.committed` (the database when the body ended) and the theorems say what the
+session machinery adds to it; for `noManual` bodies `C18_nested` gives `b.1.committed = s.committed`, i.e. the body's
+writes are committed iff … and otherwise NOTHING is committed (`C18_cm_nothing_else`, `C18_decorator_nothing_else`). -/
+
+/-- While a session is open, no program that does not call commit()/rollback() itself — whatever it nests: `with
+    db_session(...)`, decorated calls (any `retry`), wrapped generators, Flask requests, try/except — commits, rolls
+    back, or changes the nesting counter or the outermost session; it can only add pending writes.  (Unbounded nesting
+    depth: induction over programs.) -/
+theorem C18_nested (env : Env) (p : Prog) (hm : p.noManual) (s : St) (hc : 0 < s.counter) (hs : s.session.isSome = true) :
     (exec env p s).1.committed = s.committed ∧ (exec env p s).1.ncommit = s.ncommit ∧
     (exec env p s).1.counter = s.counter ∧ (exec env p s).1.session = s.session ∧
     ∃ ws, (exec env p s).1.pending = s.pending ++ ws := by
-  have h := exec_inner env p s hc hs
+  have h := exec_inner env p hm s hc hs
   exact ⟨h.committed, h.ncommit, h.counter, h.session, h.pending⟩
+
+/-- ANY program run while a session is open — also one that calls commit()/rollback() itself at any depth — leaves the
+    nesting counter and the outermost session as they were: inner exits never end the session, the outermost `__exit__`
+    still decides about whatever is pending then -/
+theorem C18_nested_balanced (env : Env) (p : Prog) (s : St) (hc : 0 < s.counter) (hs : s.session.isSome = true) :
+    (exec env p s).1.counter = s.counter ∧ (exec env p s).1.session = s.session := by
+  have h := exec_bal env p s hc hs
+  exact ⟨h.counter, h.session⟩
 
 /-- every top-level program leaves the thread clean: counter 0, no session, nothing pending — nothing uncommitted can
     leak into the next session or the next attempt -/
@@ -81,18 +96,33 @@ theorem C18_no_leak (env : Env) (p : Prog) (s : St) (hc : Clean s) : Clean (exec
 
 /-! ### context manager `with db_session(**o): body` -/
 
-/-- commit-iff: the body's writes (`b.1.pending`) are committed iff the body returned or raised an exception for which
-    `allowed_exceptions` says yes — and the commit itself goes through; otherwise the database is unchanged.
-    In every case the thread is clean afterwards. -/
+/-- commit-iff, all bodies: on top of what the body committed itself, exactly what is pending when the body ends
+    (`b.1.pending`) is committed iff the body returned or raised an exception for which `allowed_exceptions` says yes —
+    and the commit itself goes through; otherwise it is discarded.  The thread is clean afterwards. -/
 theorem C18_cm_commit_iff (env : Env) (o : Opts) (body : Prog) (s : St) (hc : Clean s) (h0 : o.retry = 0) :
     let b := exec env body (entered o s)
     let r := exec env (.withSession o body) s
     Clean r.1 ∧
+    r.1.committed = b.1.committed ++
+      (if wantsCommit o b.2.exc? && commitOK env b.1.ncommit b.1.pending then b.1.pending else []) := by
+  intro b r
+  have h := cm_top env o (exec env body) s hc (exec_bal env body) h0
+  exact ⟨h.1, h.2.1⟩
+
+/-- … and for a body that does not commit itself: its writes are committed iff …, otherwise the database is unchanged -/
+theorem C18_cm_nothing_else (env : Env) (o : Opts) (body : Prog) (hm : body.noManual) (s : St) (hc : Clean s)
+    (h0 : o.retry = 0) :
+    let b := exec env body (entered o s)
+    let r := exec env (.withSession o body) s
     r.1.committed = s.committed ++
       (if wantsCommit o b.2.exc? && commitOK env s.ncommit b.1.pending then b.1.pending else []) := by
   intro b r
-  have h := cm_top env o (exec env body) s hc (exec_inner env body) h0
-  exact ⟨h.1, h.2.1⟩
+  have h := (C18_cm_commit_iff env o body s hc h0).2
+  have hn := C18_nested env body hm (entered o s) (by simp [entered]) (by simp [entered])
+  have h1 : b.1.committed = s.committed := hn.1
+  have h2 : b.1.ncommit = s.ncommit := hn.2.1
+  show (exec env (.withSession o body) s).1.committed = _
+  rw [h, h1, h2]
 
 /-- propagation: the outcome is the body's outcome unless `__exit__` itself raises (commit failure, raising callable),
     in which case that exception propagates; in particular an exception of the body is never swallowed and a normal
@@ -100,25 +130,25 @@ theorem C18_cm_commit_iff (env : Env) (o : Opts) (body : Prog) (s : St) (hc : Cl
 theorem C18_cm_propagates (env : Env) (o : Opts) (body : Prog) (s : St) (hc : Clean s) (h0 : o.retry = 0) :
     let b := exec env body (entered o s)
     let r := exec env (.withSession o body) s
-    r.2 = (match corErr env o b.2.exc? s.ncommit b.1.pending with
+    r.2 = (match corErr env o b.2.exc? b.1.ncommit b.1.pending with
            | some e' => .raise e'
            | none => b.2) ∧
     (∀ e, b.2 = .raise e → ∃ e', r.2 = .raise e') ∧
-    (r.2 = .ret → b.2 = .ret ∧ commitOK env s.ncommit b.1.pending = true) := by
+    (r.2 = .ret → b.2 = .ret ∧ commitOK env b.1.ncommit b.1.pending = true) := by
   intro b r
-  have h := (cm_top env o (exec env body) s hc (exec_inner env body) h0).2.2.2
-  have h' : r.2 = (match corErr env o b.2.exc? s.ncommit b.1.pending with
+  have h := (cm_top env o (exec env body) s hc (exec_bal env body) h0).2.2.2
+  have h' : r.2 = (match corErr env o b.2.exc? b.1.ncommit b.1.pending with
            | some e' => .raise e'
            | none => b.2) := h
   refine ⟨h', ?_, ?_⟩
   · intro e he
     rw [h']
-    cases corErr env o b.2.exc? s.ncommit b.1.pending with
+    cases corErr env o b.2.exc? b.1.ncommit b.1.pending with
     | some e' => exact ⟨e', rfl⟩
     | none => exact ⟨e, he⟩
   · intro hr
     rw [h'] at hr
-    cases hce : corErr env o b.2.exc? s.ncommit b.1.pending with
+    cases hce : corErr env o b.2.exc? b.1.ncommit b.1.pending with
     | some e' => rw [hce] at hr; cases hr
     | none =>
       rw [hce] at hr
@@ -138,30 +168,41 @@ theorem C18_cm_retry_rejected (env : Env) (o : Opts) (body : Prog) (s : St) (h0 
 theorem C18_decorator_chain (env : Env) (o : Opts) (f : Nat → Prog) (s : St) (hc : Clean s) :
     Chain env o (fun i => exec env (f i)) s.committed 0 (decorated env o (fun i => exec env (f i)) s).log := by
   rw [decorated_top env o _ s hc]
-  exact (loop_spec env o _ (fun j => exec_inner env (f j)) o.retry 0 none s hc).1
+  exact (loop_spec env o _ (fun j => exec_bal env (f j)) o.retry 0 none s hc).1
 
 /-- retry bound: the body runs at least once and at most retry+1 times -/
 theorem C18_retry_bound (env : Env) (o : Opts) (f : Nat → Prog) (s : St) (hc : Clean s) :
     1 ≤ (decorated env o (fun i => exec env (f i)) s).log.length ∧
     (decorated env o (fun i => exec env (f i)) s).log.length ≤ o.retry + 1 := by
   rw [decorated_top env o _ s hc]
-  obtain ⟨_, h2, _, a, h4, _⟩ := loop_spec env o _ (fun j => exec_inner env (f j)) o.retry 0 none s hc
+  obtain ⟨_, h2, _, a, h4, _⟩ := loop_spec env o _ (fun j => exec_bal env (f j)) o.retry 0 none s hc
   refine ⟨?_, h2⟩
   cases hl : (loop env o (fun i => exec env (f i)) (o.retry + 1) 0 none s).log with
   | nil => rw [hl] at h4; cases h4
   | cons x xs => simp
 
-/-- every attempt starts from the committed state: right after the outermost `_enter()`, nothing pending (the previous
-    attempt's writes are gone) and the database exactly as it was before the call -/
+/-- every attempt starts from the committed state (all bodies): right after the outermost `_enter()`, with nothing
+    pending — the previous attempt's uncommitted writes are gone —; the first one sees the database as it was before the
+    call, and each later one sees exactly the database the previous body left (`after.committed`: what that body committed
+    itself; the retry machinery commits nothing in between) -/
 theorem C18_attempts_start_from_committed (env : Env) (o : Opts) (f : Nat → Prog) (s : St) (hc : Clean s) :
+    let log := (decorated env o (fun i => exec env (f i)) s).log
+    (∀ a ∈ log, a.start.pending = [] ∧ a.start.counter = 1 ∧ a.start.session = some o.sess) ∧
+    (∃ a0, log.head? = some a0 ∧ a0.start.committed = s.committed) ∧
+    (∀ j (h : j + 1 < log.length), log[j + 1].start.committed = log[j].after.committed) := by
+  intro log
+  obtain ⟨h1, _, _, h4, h5⟩ := chain_all (C18_decorator_chain env o f s hc)
+  exact ⟨fun a ha => ⟨(h1 a ha).2, (h1 a ha).1.1, (h1 a ha).1.2⟩, h4, h5⟩
+
+/-- … and when no body commits itself, every attempt starts (and ends) with the database exactly as before the call -/
+theorem C18_attempts_start_unchanged (env : Env) (o : Opts) (f : Nat → Prog) (hm : ∀ i, (f i).noManual) (s : St)
+    (hc : Clean s) :
     ∀ a ∈ (decorated env o (fun i => exec env (f i)) s).log,
-      a.start.pending = [] ∧ a.start.committed = s.committed ∧ a.start.counter = 1 ∧ a.start.session = some o.sess := by
-  intro a ha
-  obtain ⟨h1, h2, h3⟩ := (chain_all (C18_decorator_chain env o f s hc)).1 a ha
-  exact ⟨h2, h3, h1.1, h1.2⟩
+      a.start.committed = s.committed ∧ a.after.committed = s.committed ∧ a.after.ncommit = a.start.ncommit :=
+  chain_noManual (fun j => exec_inner env (f j) (hm j)) (C18_decorator_chain env o f s hc)
 
 /-- a retry happens only for retryable exceptions: every execution but the last ended with an exception `e` (of the body,
-    or of `commit()`) for which `exc.should_retry` or `retry_exceptions` said yes — and committed nothing -/
+    or of `commit()`) for which `exc.should_retry` or `retry_exceptions` said yes — and the loop committed nothing of it -/
 theorem C18_retry_only_retryable (env : Env) (o : Opts) (f : Nat → Prog) (s : St) (hc : Clean s) :
     ∀ a ∈ (decorated env o (fun i => exec env (f i)) s).log.dropLast,
       ∃ e, a.exc = some e ∧ doRetry env o e = .yes ∧ attCommits env o a = false :=
@@ -170,26 +211,39 @@ theorem C18_retry_only_retryable (env : Env) (o : Opts) (f : Nat → Prog) (s : 
 /-- the j-th record is what the j-th execution of the body really did -/
 theorem C18_log_faithful (env : Env) (o : Opts) (f : Nat → Prog) (s : St) (hc : Clean s)
     (j : Nat) (h : j < (decorated env o (fun i => exec env (f i)) s).log.length) :
-    Faithful env o (fun i => exec env (f i)) s.committed j (decorated env o (fun i => exec env (f i)) s).log[j] := by
-  have := (chain_all (C18_decorator_chain env o f s hc)).2.2 j h
-  simpa using this
+    ∃ c, Faithful env o (fun i => exec env (f i)) c j (decorated env o (fun i => exec env (f i)) s).log[j] := by
+  obtain ⟨c, hc'⟩ := (chain_all (C18_decorator_chain env o f s hc)).2.2.1 j h
+  exact ⟨c, by simpa using hc'⟩
 
-/-- commit-iff for the decorator: after the call the thread is clean and the database is the old one plus the writes of
-    the LAST execution of the body iff that execution `attCommits` (returned, or raised a non-retried allowed exception,
-    and the commit went through); otherwise the database is unchanged.  The outcome is determined by the last execution;
-    when it asked for another retry, the retries were exhausted and its exception propagates. -/
+/-- commit-iff for the decorator, all bodies: after the call the thread is clean and the database is what the LAST
+    execution of the body left (`a.after.committed`) plus what was pending when it ended iff that execution `attCommits`
+    (returned, or raised a non-retried allowed exception, and the commit went through).  The outcome is determined by the
+    last execution; when it asked for another retry, the retries were exhausted and its exception propagates. -/
 theorem C18_decorator_commit_iff (env : Env) (o : Opts) (f : Nat → Prog) (s : St) (hc : Clean s) :
     let r := decorated env o (fun i => exec env (f i)) s
     Clean r.st ∧
     ∃ a, r.log.getLast? = some a ∧
-      r.st.committed = s.committed ++ (if attCommits env o a then a.writes else []) ∧
+      r.st.committed = a.after.committed ++ (if attCommits env o a then a.writes else []) ∧
       r.out = (match attOutSpec env o a with | .done out => out | .again e => .raise e) ∧
       (∀ e, attOutSpec env o a = .again e → r.log.length = o.retry + 1) := by
   intro r
   have hr : r = loop env o (fun i => exec env (f i)) (o.retry + 1) 0 none s := decorated_top env o _ s hc
   rw [hr]
-  obtain ⟨_, _, h3, a, h4⟩ := loop_spec env o _ (fun j => exec_inner env (f j)) o.retry 0 none s hc
+  obtain ⟨_, _, h3, a, h4⟩ := loop_spec env o _ (fun j => exec_bal env (f j)) o.retry 0 none s hc
   exact ⟨h3, a, h4⟩
+
+/-- … and when no body commits itself: the database afterwards is the one before the call plus the writes of the last
+    execution iff it `attCommits`; otherwise NOTHING is committed -/
+theorem C18_decorator_nothing_else (env : Env) (o : Opts) (f : Nat → Prog) (hm : ∀ i, (f i).noManual) (s : St)
+    (hc : Clean s) :
+    let r := decorated env o (fun i => exec env (f i)) s
+    ∃ a, r.log.getLast? = some a ∧
+      r.st.committed = s.committed ++ (if attCommits env o a then a.writes else []) := by
+  intro r
+  obtain ⟨_, a, h1, h2, _⟩ := C18_decorator_commit_iff env o f s hc
+  have hmem : a ∈ (decorated env o (fun i => exec env (f i)) s).log := List.mem_of_getLast? h1
+  have h3 := (C18_attempts_start_unchanged env o f hm s hc a hmem).2.1
+  exact ⟨a, h1, by rw [← h3]; exact h2⟩
 
 /-- propagation for the decorator: the call returns normally iff the last execution returned and its commit went
     through; if the `except:` clause saw `e` and neither predicate raises, `e` itself propagates (or, when it is allowed
@@ -199,7 +253,7 @@ theorem C18_decorator_propagates (env : Env) (o : Opts) (f : Nat → Prog) (s : 
     ∃ a, r.log.getLast? = some a ∧
       (r.out = .ret ↔ a.exc = none) ∧
       (∀ e, a.exc = some e → (∀ x, o.allowed e ≠ .raises x) → (∀ x, doRetry env o e ≠ .raises x) →
-        commitOK env a.start.ncommit (if a.bodyOut = .ret then [] else a.writes) = true → r.out = .raise e) := by
+        commitOK env a.after.ncommit (if a.bodyOut = .ret then [] else a.writes) = true → r.out = .raise e) := by
   intro r
   obtain ⟨_, a, h1, _, h3, _⟩ := C18_decorator_commit_iff env o f s hc
   refine ⟨a, h1, ?_, ?_⟩
@@ -217,7 +271,7 @@ theorem C18_decorator_propagates (env : Env) (o : Opts) (f : Nat → Prog) (s : 
   · intro e hx hna hnr hok
     show (decorated env o (fun i => exec env (f i)) s).out = .raise e
     rw [h3]
-    have hce : commitErr env a.start.ncommit (if a.bodyOut = .ret then [] else a.writes) = none :=
+    have hce : commitErr env a.after.ncommit (if a.bodyOut = .ret then [] else a.writes) = none :=
       (commitOK_iff _ _ _).1 hok
     unfold attOutSpec
     simp only [hx]
@@ -244,31 +298,45 @@ theorem C18_decorator_nested (env : Env) (o : Opts) (f : Nat → Prog) (s : St) 
 
 /-! ### Flask and Bottle glue -/
 
-/-- Flask: a request whose view ran under Pony's hooks is committed iff the view returned (the module-level db_session
-    allows no exception) and the commit went through; otherwise nothing is committed; the view's exception stays the
-    outcome of the request. -/
+/-- Flask, all views: on top of what the view committed itself, what is pending when it ends is committed iff the view
+    returned (the module-level db_session allows no exception) and the commit went through; a view that raises gets
+    nothing more committed and its exception stays the outcome of the request. -/
 theorem C18_flask (env : Env) (view : Prog) (s : St) (hc : Clean s) :
     let b := exec env view (entered (defaultOpts env) s)
     let r := exec env (.flask true view) s
     Clean r.1 ∧
-    r.1.committed = s.committed ++
-      (if b.2 = .ret ∧ commitOK env s.ncommit b.1.pending = true then b.1.pending else []) ∧
-    (∀ e, b.2 = .raise e → r.2 = .raise e ∧ r.1.committed = s.committed) := by
+    r.1.committed = b.1.committed ++
+      (if b.2 = .ret ∧ commitOK env b.1.ncommit b.1.pending = true then b.1.pending else []) ∧
+    (∀ e, b.2 = .raise e → r.2 = .raise e ∧ r.1.committed = b.1.committed) := by
   intro b r
   have hr : r = cm env (defaultOpts env) (exec env view) s := flask_eq_cm env _ s hc
-  have h := cm_top env (defaultOpts env) (exec env view) s hc (exec_inner env view) rfl
+  have h := cm_top env (defaultOpts env) (exec env view) s hc (exec_bal env view) rfl
   dsimp only at h
   have hal : ∀ e, (defaultOpts env).allowed e = .no := fun _ => rfl
   rw [hr]
   refine ⟨h.1, ?_, ?_⟩
   · rw [h.2.1]
-    show _ ++ (if wantsCommit (defaultOpts env) b.2.exc? && commitOK env s.ncommit b.1.pending then b.1.pending else []) = _
-    cases hb : b.2 <;> simp [wantsCommit, Outcome.exc?, hal]
+    show _ ++ (if wantsCommit (defaultOpts env) b.2.exc? && commitOK env b.1.ncommit b.1.pending then b.1.pending else []) = _
+    cases hb : b.2 <;> simp [wantsCommit, Outcome.exc?, hal] <;> rfl
   · intro e he
     have hb : (exec env view (entered (defaultOpts env) s)).2 = .raise e := he
     refine ⟨?_, ?_⟩
     · rw [h.2.2.2, hb]; simp [Outcome.exc?, corErr, hal]
-    · rw [h.2.1, hb]; simp [Outcome.exc?, wantsCommit, hal]
+    · rw [h.2.1, hb]; simp [Outcome.exc?, wantsCommit, hal]; rfl
+
+/-- Flask with a view that does not commit itself: the request is committed iff the view succeeded, else nothing is -/
+theorem C18_flask_nothing_else (env : Env) (view : Prog) (hm : view.noManual) (s : St) (hc : Clean s) :
+    let b := exec env view (entered (defaultOpts env) s)
+    let r := exec env (.flask true view) s
+    r.1.committed = s.committed ++
+      (if b.2 = .ret ∧ commitOK env s.ncommit b.1.pending = true then b.1.pending else []) := by
+  intro b r
+  have h := (C18_flask env view s hc).2.1
+  have hn := C18_nested env view hm (entered (defaultOpts env) s) (by simp [entered]) (by simp [entered])
+  have h1 : b.1.committed = s.committed := hn.1
+  have h2 : b.1.ncommit = s.ncommit := hn.2.1
+  show (exec env (.flask true view) s).1.committed = _
+  rw [h, h1, h2]
 
 /-- Flask, teardown without Pony's before_request hook having run (`request.pony_session` absent): `_exit_session`
     does nothing -/
@@ -276,15 +344,16 @@ theorem C18_flask_unhooked (env : Env) (view : Prog) (s : St) :
     exec env (.flask false view) s = exec env view s := by
   simp only [exec, flaskRequest, Bool.false_eq_true, if_false, flaskExit_eq]
 
-/-- Bottle: `PonyPlugin.apply` runs the callback exactly once; its writes are committed iff the commit goes through and
-    the callback returned or raised an HTTPResponse that is not an HTTPError (the expression of `is_allowed_exception`,
-    regenerated from the source) and is not retryable; otherwise nothing is committed. -/
+/-- Bottle: `PonyPlugin.apply` runs the callback exactly once; on top of what the callback committed itself, what is
+    pending when it ends is committed iff the commit goes through and the callback returned or raised an HTTPResponse that
+    is not an HTTPError (the expression of `is_allowed_exception`, regenerated from the source) and is not retryable;
+    otherwise it is discarded. -/
 theorem C18_bottle (env : Env) (isResp isErr : Exc → Bool) (callback : Nat → Prog) (s : St) (hc : Clean s) :
     let r := decorated env (bottleOpts env isResp isErr) (fun i => exec env (callback i)) s
     Clean r.st ∧
-    ∃ a, r.log = [a] ∧
-      r.st.committed = s.committed ++
-        (if commitOK env s.ncommit a.writes &&
+    ∃ a, r.log = [a] ∧ a.start = entered (bottleOpts env isResp isErr) s ∧
+      r.st.committed = a.after.committed ++
+        (if commitOK env a.after.ncommit a.writes &&
             (match a.bodyOut with
              | .ret => true
              | .raise e => (isResp e && !isErr e) && !(env.shouldRetry e) && !(env.isTx e))
@@ -307,17 +376,7 @@ theorem C18_bottle (env : Env) (isResp isErr : Exc → Bool) (callback : Nat →
         simp at h2'
         rw [h2']
       | cons y ys => rw [hl] at hlen; simp at hlen
-  have hstart := C18_attempts_start_from_committed env (bottleOpts env isResp isErr) callback s hc a
-    (by show a ∈ r.log; rw [hlog]; simp)
-  have hf := C18_log_faithful env (bottleOpts env isResp isErr) callback s hc 0 (by show 0 < r.log.length; omega)
-  have ha0 : (decorated env (bottleOpts env isResp isErr) (fun i => exec env (callback i)) s).log[0]'(by show 0 < r.log.length; omega) = a := by
-    have : r.log[0]'(by omega) = a := by simp [hlog]
-    exact this
-  rw [ha0] at hf
-  have hn : a.start.ncommit = s.ncommit := by
-    have h := hf.entered
-    -- the start state is `entered o s` up to nothing: ncommit is untouched by `_enter`
-    have hch := C18_decorator_chain env (bottleOpts env isResp isErr) callback s hc
+  have hstart : a.start = entered (bottleOpts env isResp isErr) s := by
     have hr : r = loop env (bottleOpts env isResp isErr) (fun i => exec env (callback i)) 1 0 none s :=
       decorated_top env _ _ s hc
     have hl2 : r.log = [a] := hlog
@@ -328,22 +387,25 @@ theorem C18_bottle (env : Env) (isResp isErr : Exc → Bool) (callback : Nat →
       cases ao <;> simpa [loop] using hl2
     rcases hb2 : exec env (callback 0) (entered (bottleOpts env isResp isErr) s) with ⟨bs, bo⟩
     have hsp := (attempt_spec env (bottleOpts env isResp isErr) (fun i => exec env (callback i)) 0 _
-      (entered_Entered _ s) (exec_inner env (callback 0)) bs bo hb2).1
+      (entered_Entered _ s) (exec_bal env (callback 0)) bs bo hb2).1
     rw [ht] at hsp
     simp only at hsp
     rw [← ha', hsp]
-    rfl
-  refine ⟨h1, a, hlog, ?_⟩
+  have hbool : attCommits env (bottleOpts env isResp isErr) a =
+      (commitOK env a.after.ncommit a.writes &&
+        (match a.bodyOut with
+         | .ret => true
+         | .raise e => (isResp e && !isErr e) && !(env.shouldRetry e) && !(env.isTx e))) := by
+    simp only [attCommits]
+    cases a.bodyOut with
+    | ret => rfl
+    | raise e =>
+      simp only [doRetry_eq, bottleOpts, isAllowedException_eq]
+      by_cases hs : env.shouldRetry e = true <;> by_cases ht : env.isTx e = true <;>
+        by_cases hrd : isResp e = true <;> by_cases hre : isErr e = true <;> simp [hs, ht, hrd, hre]
+  refine ⟨h1, a, hlog, hstart, ?_⟩
   show (decorated env (bottleOpts env isResp isErr) (fun i => exec env (callback i)) s).st.committed = _
-  rw [h3]
-  congr 1
-  simp only [attCommits, hn]
-  cases a.bodyOut with
-  | ret => rfl
-  | raise e =>
-    simp only [doRetry_eq, bottleOpts, isAllowedException_eq]
-    by_cases hs : env.shouldRetry e = true <;> by_cases ht : env.isTx e = true <;>
-      by_cases hrd : isResp e = true <;> by_cases hre : isErr e = true <;> simp [hs, ht, hrd, hre]
+  rw [h3, hbool]
 
 /-! ### generator functions -/
 
@@ -419,6 +481,22 @@ example : exec { commitFail := fun _ => some (.user 100) } (.withSession {} (.wr
 /-- Flask: failing view → rollback; succeeding view → commit -/
 example : exec {} (.flask true (.seq (.write 1) (.raise eOther))) {} = ({}, .raise eOther) := by decide
 example : exec {} (.flask true (.write 1)) {} = ({ committed := [1], ncommit := 1 }, .ret) := by decide
+
+/-- a body that commits itself: what it committed stays, what it wrote afterwards is rolled back when it fails … -/
+example : exec {} (.withSession {} (.seq (.write 1) (.seq .commit (.seq (.write 2) (.raise eOther))))) {} =
+    ({ committed := [1], ncommit := 1 }, .raise eOther) := by decide
+/-- … a retried attempt keeps only what it committed itself, and the next attempt starts from exactly that -/
+example : (exec {} (.call optsEx (fun i => if i = 0 then .seq (.write 1) (.seq .commit (.seq (.write 2) (.raise eRetry)))
+                                            else .seq .observe (.write 3))) {}) =
+    ({ committed := [1, 3], ncommit := 2, trace := [.saw [1]] }, .ret) := by decide
+/-- … and `rollback()` inside a body discards what was pending, the session goes on -/
+example : exec {} (.withSession {} (.seq (.write 1) (.seq .rollback (.write 2)))) {} =
+    ({ committed := [2], ncommit := 1 }, .ret) := by decide
+/-- the `noManual` hypothesis is satisfiable by a program with nested sessions -/
+example : (Prog.withSession {} (.seq (.write 1) (.call optsEx bodyEx))).noManual := by
+  simp only [Prog.noManual, bodyEx, true_and]
+  intro i
+  split <;> simp [Prog.noManual]
 
 /-- generator: manual commit before the yield is kept, the tail of a raising segment is not -/
 example : exec {} (.iter {} [({ writes := [1], manualCommit := true, fin := .yield }, .next),
